@@ -123,7 +123,9 @@ def onlyNewStep (o : Opts) (pkg : Pkg) (kws : List Str) : List Str :=
 
 /-- `allarches_kw` -/
 def allarchesKw (repo : Repo) (o : Opts) (pkg : Pkg) : List Str :=
-  if o.allarches && o.stable && !o.filterArch.isEmpty then sortKw (suggested repo pkg true) else []
+  if o.allarches && o.stable && !o.filterArch.isEmpty then
+    sortKw ((suggested repo pkg true).filter (repo.known.contains ·))     -- `suggested & valid_arches`
+  else []
 
 /-- the `filter_arch` filter with the all-arches additions -/
 def filterStep (repo : Repo) (o : Opts) (pkg : Pkg) (kws : List Str) : List Str :=
